@@ -63,6 +63,7 @@ def gen_cases(tier, rng):
             if r == 0: ops.append("M")
             if r == 1: ops.append("A")
             if r <= 3: ops.append("V")
+            if r in (2, 4): ops.append("F")          # applyToAllElements visits every element of every block once
         ops.append("V")
         cases.append("mem %d %d %s %s" % (lid, len(ks), " ".join(ks), " ".join(ops)))
     return cases
@@ -107,6 +108,10 @@ def oracle(c, line):
                 lo = offs_c[b]; hi = lo + block_bytes(ks[b], sizes_c[b])
                 if not (lo <= off and off + sz <= hi):
                     return "accessor %s: bytes [%d,%d) outside its block [%d,%d)" % (a, off, off + sz, lo, hi)
+        if op == "F":
+            exp = sum((1 if kind(k)[0] == "S" else n * (kind(k)[2] if kind(k)[0] in "RC" else 1)) for k, n in zip(ks, cur[1])) if cur else None
+            if not o.startswith("each ") or not o.endswith("same=1") or (exp is not None and f.get("n") != str(exp)):
+                return "applyToAllElements visited %s elements (same addresses as the viewers: %s), the blocks hold %s" % (f.get("n"), o.split("same=")[-1], exp)
         if op == "V" and not o.endswith("same=1"):
             return "a byte copy viewed through the raw-memory constructor differs from the original: " + o[-80:]
     return None
